@@ -43,6 +43,7 @@ struct Args {
     bool trace = false;
     bool relevance = false;
     bool no_isolate = false;
+    bool stateless = false;
     long max_exec = -1;
     int subshard = 0, nsubshards = 1; // partition inside one scenario (first-deviation subtrees)
     std::string oracle = "all";
@@ -71,6 +72,7 @@ inline Args parse(int argc, char** argv) {
         else if (s == "--trace") a.trace = true;
         else if (s == "--relevance") a.relevance = true;
         else if (s == "--no-isolate") a.no_isolate = true;
+        else if (s == "--stateless") a.stateless = true;
         else if (s == "--max-exec") a.max_exec = atol(next().c_str());
         else if (s == "--oracle") a.oracle = next();
         else if (s == "--stop-after") a.stop_after = atoi(next().c_str());
@@ -89,6 +91,7 @@ struct Scenario {
     bool stateful = false;
     long watchdog = 400000;
     bool relevance = false;
+    bool thorough_single_pass = false;    // thorough tier: run only the final bound (stateful, effectively unbounded)
 };
 
 inline void print_report(const char* harness, const Scenario& sc, int bound, const ykmc::RunReport& rr, double wall) {
@@ -160,7 +163,7 @@ inline int run_main(const char* harness, const std::vector<Scenario>& all, const
         ykmc::Options o;
         o.bound = a.bound >= 0 ? a.bound : (a.tier == "quick" ? sc.bound_quick : sc.bound_thorough);
         o.cls_mask = sc.cls_mask;
-        o.stateful = sc.stateful;
+        o.stateful = sc.stateful && !a.stateless;
         o.watchdog = sc.watchdog;
         o.isolate = !a.no_isolate;
         o.max_exec = a.max_exec;
@@ -168,6 +171,7 @@ inline int run_main(const char* harness, const std::vector<Scenario>& all, const
         o.nshards = a.nsubshards;
         o.relevance = a.relevance || sc.relevance;
         o.stop_after_violations = a.stop_after;
+        if (a.tier != "quick" && sc.thorough_single_pass && a.bound < 0) o.iterate_bounds = false;
         if (a.deadline_s > 0) o.deadline = t0 + a.deadline_s;
         double s0 = ykmc::mono_now();
         ykmc::RunReport rr = ykmc::explore(*h, o);
